@@ -60,7 +60,7 @@ class Check:
         the mismatch aspects that belong to this property (e.g. 'C01.')."""
         out = os.path.join(self.workdir(), f'{label}.mismatches.ndjson')
         try:
-            s = vp.jsv(['replay'] + list(files) + ['--out', out] + list(extra_args), debug=debug)
+            s = self._confirmed(lambda: vp.jsv(['replay'] + list(files) + ['--out', out] + list(extra_args), debug=debug), 'replay ' + label)
         except vp.HarnessHang as e:
             self._hang(e, 'replay ' + label)
             raise RecorderAborted()
@@ -73,6 +73,22 @@ class Check:
         for smp in s.get('samples', [])[:3]:
             self.samples.append(smp)
         return s
+
+    def _confirmed(self, run, what):
+        """A hang (or, for a recorder, the death of the process) counts only if it happens AGAIN when the same deterministic run is
+        repeated: the code under test hanging or aborting is reproducible, a machine that stalls (another process exhausting the
+        memory, the OOM killer picking the harness) is not.  The first failure is logged, the second one is raised."""
+        try:
+            return run()
+        except (vp.HarnessHang, vp.HarnessCrash) as e:
+            if isinstance(e, vp.HarnessCrash) and what.startswith('replay'):
+                raise                   # replays confirm a crash by isolating the vector in fresh processes
+            log(f'[{what}] {type(e).__name__} - repeating the run once to tell the code under test from the machine '
+                f'(memory stall so far: {vp.memory_stall_us()} us)')
+            self.extra.setdefault('unconfirmed_harness_failures', []).append({'what': what, 'kind': type(e).__name__})
+            r = run()
+            log(f'[{what}] the repeated run completed: the first failure was the machine, not the code under test')
+            return r
 
     def _hang(self, e, where):
         """non-termination of the code under test is data: the specification gives every call a result"""
@@ -112,8 +128,14 @@ class Check:
             try:
                 s = vp.jsv(['replay', p, '--out', o, '--threads', 2] + list(extra_args))
             except vp.HarnessHang as e:
-                self._hang(e, 'replay (isolating an aborting vector)')
-                return
+                try:
+                    s = vp.jsv(['replay', p, '--out', o, '--threads', 2] + list(extra_args))     # must hang again to count
+                except vp.HarnessHang as e2:
+                    self._hang(e2, 'replay (isolating an aborting vector)')
+                    return
+                except vp.HarnessCrash:
+                    self._hang(e, 'replay (isolating an aborting vector)')
+                    return
             except vp.HarnessCrash:
                 if found[0] >= 3 and len(lines) > 1:
                     # enough culprits isolated: do not bisect further chunks, just count them
@@ -123,6 +145,20 @@ class Check:
                     merged['counters']['chunks_aborted_not_bisected'] = merged['counters'].get('chunks_aborted_not_bisected', 0) + 1
                     return
                 if len(lines) == 1:
+                    # the vector that brings the process down does so every time: once more, in a fresh process
+                    try:
+                        s2 = vp.jsv(['replay', p, '--out', o, '--threads', 2] + list(extra_args))
+                        log('[replay] a vector that took the process down once replays cleanly: the machine, not the code under test')
+                        for k, v in s2.get('counters', {}).items():
+                            merged['counters'][k] = merged['counters'].get(k, 0) + v
+                        if os.path.exists(o):
+                            mm.write(open(o).read())
+                        return
+                    except vp.HarnessHang as e:
+                        self._hang(e, 'replay (isolating an aborting vector)')
+                        return
+                    except vp.HarnessCrash:
+                        pass
                     found[0] += 1
                     rec = vp.unquote_tlc(lines[0]) if lines[0].startswith('"') else json.loads(lines[0])
                     a = self.ABORT_ASPECT.get(rec.get('k'), 'C00.abort')
@@ -172,7 +208,7 @@ class Check:
         """Run a harness recorder (impl -> spec direction); returns (trace path, summary)."""
         path = os.path.join(self.workdir(), out_name)
         try:
-            s = vp.jsv([sub, '--out', path] + [str(a) for a in args], seed_offset=seed_offset, debug=debug)
+            s = self._confirmed(lambda: vp.jsv([sub, '--out', path] + [str(a) for a in args], seed_offset=seed_offset, debug=debug), f'recorder {sub}')
         except vp.HarnessHang as e:
             self._hang(e, f'recorder {sub} {" ".join(str(a) for a in args)} (seed {vp.seed() + seed_offset})')
             raise RecorderAborted()
